@@ -130,17 +130,16 @@ func (dm *DMap) putOnReplicaFragment(e *env) error {
 	}
 
 	part := dm.getPartitionByHKey(e.hkey, partitions.BACKUP)
-	f, err := dm.loadOrCreateFragment(part)
-	if err != nil {
-		return err
-	}
-
-	e.fragment = f
 	if verifhook.Enabled {
 		verifhook.Point("put.fragmentLoaded", dm.s.rt.This().String(), e.key)
 	}
-	f.Lock()
+	f, err := dm.lockFragment(part)
+	if err != nil {
+		return err
+	}
 	defer f.Unlock()
+
+	e.fragment = f
 
 	err = f.storage.PutRaw(e.hkey, e.value)
 	if errors.Is(err, storage.ErrKeyTooLarge) {
@@ -339,17 +338,16 @@ func (dm *DMap) putOnCluster(e *env) error {
 	}
 
 	part := dm.getPartitionByHKey(e.hkey, partitions.PRIMARY)
-	f, err := dm.loadOrCreateFragment(part)
-	if err != nil {
-		return err
-	}
-
-	e.fragment = f
 	if verifhook.Enabled {
 		verifhook.Point("put.fragmentLoaded", dm.s.rt.This().String(), e.key)
 	}
-	f.Lock()
+	f, err := dm.lockFragment(part)
+	if err != nil {
+		return err
+	}
 	defer f.Unlock()
+
+	e.fragment = f
 
 	if err = dm.checkPutConditions(e); err != nil {
 		return err
